@@ -438,7 +438,7 @@ def subchecks(tier):
             prop,
             quick=3000,
             thorough=400000,
-            floors={"near_boundary": 0.144, "multi_period": 0.269, "near_boundary_linear": 0.08, "after_update": 0.1, "mixed_sign_with_phases": 0.178, "signed_schedule": 0.03, "equal_total_columns": 0.021, "int_and_float_rows": 0.08, "description_edited_in_place": 0.08, "more_than_1024_periods": 0.003},
+            floors={"near_boundary": 0.144, "multi_period": 0.269, "near_boundary_linear": 0.08, "after_update": 0.1, "mixed_sign_with_phases": 0.158, "signed_schedule": 0.025, "equal_total_columns": 0.015, "int_and_float_rows": 0.08, "description_edited_in_place": 0.07, "more_than_1024_periods": 0.003},
         ),
         Given("unconstrained", unconstrained_cases(), prop_unconstrained, quick=60, thorough=3000, jobs_quick=2),
     ]
